@@ -150,6 +150,38 @@ def foreign_chunks(be):
     return out
 
 
+def interaction_files(seed_bytes, limit=800):
+    """systematic cross-chunk interactions: every ordered pair and triple of 'stateful' foreign chunks (chunks with counts, chunks the
+    reader combines after the chunk loop, chunks whose second occurrence replaces the first) inserted before the audio chunk of one seed
+    file. Returns a list of (label, bytes)."""
+    ch = walk_chunks(seed_bytes)
+    if not ch or not ch[1] or seed_bytes[:4] not in (b"RIFF", b"RIFX", b"FORM"):
+        return []
+    h, cl = ch
+    be = seed_bytes[:4] in (b"RIFX", b"FORM")
+    dic = foreign_chunks(be)
+    keep = ([0, 1, 2, 3, 4, 6, 12] if be else [0, 1, 2, 3, 4, 5, 10, 11, 12, 13])      # stateful ones
+    dic = [dic[i] for i in keep if i < len(dic)]
+    audio = b"SSND" if seed_bytes[:4] == b"FORM" else b"data"
+    k = next((i for i, (a, b) in enumerate(cl) if seed_bytes[a:a + 4] == audio), len(cl))
+    head = seed_bytes[:cl[k][0]] if k < len(cl) else seed_bytes
+    rest = seed_bytes[cl[k][0]:] if k < len(cl) else b""
+    out = []
+    n = len(dic)
+    for i in range(n):
+        for j in range(n):
+            out.append(("pair-%d-%d" % (i, j), head + dic[i] + dic[j] + rest))
+            out.append(("pairT-%d-%d" % (i, j), head + dic[i] + rest + dic[j]))
+    for i in range(n):
+        for j in range(n):
+            for l in range(n):
+                out.append(("triple-%d-%d-%d" % (i, j, l), head + dic[i] + dic[j] + dic[l] + rest))
+    if len(out) > limit:
+        step = len(out) / float(limit)
+        out = [out[int(x * step)] for x in range(limit)]
+    return out
+
+
 LEN_SUBST32 = [0, 1, 0x7FFFFFFF, 0xFFFFFFFF, 0x80000000, 0xFFFFFFFE, 0x7FFFFFFE]
 SUBST16 = [0, 1, 2, 0xFFFF, 0x7FFF, 0x8000, 0x401, 0x400, 3]
 
